@@ -66,6 +66,7 @@ structure ModeIrrelevant (lits : List Lit) (n : Nat) : Prop where
   sortLoop : sortLoop .positional lits n = sortLoop .lexical lits n
   tryLoop : tryLoop .positional lits n = tryLoop .lexical lits n
   threadCall : threadCall .positional lits n = threadCall .lexical lits n
+  loopRun : loopRun .positional lits n = loopRun .lexical lits n
 
 theorem mode_irrelevant_zero (lits : List Lit) : ModeIrrelevant lits 0 := by
   constructor
@@ -77,6 +78,7 @@ theorem mode_irrelevant_zero (lits : List Lit) : ModeIrrelevant lits 0 := by
   · funext a b c d e; simp only [sortLoop]
   · funext a b; simp only [tryLoop]
   · funext a b c; simp only [threadCall]
+  · funext a b c d e; simp only [loopRun]
 
 end Risor.C02
 
@@ -84,7 +86,7 @@ namespace Risor.C02
 
 theorem mode_irrelevant_succ (lits : List Lit) (h : depth1Only lits = true) (n : Nat)
     (ih : ModeIrrelevant lits n) : ModeIrrelevant lits (n + 1) := by
-  obtain ⟨h1, h2, h3, h4, h5, h6, h7, h8⟩ := ih
+  obtain ⟨h1, h2, h3, h4, h5, h6, h7, h8, h9⟩ := ih
   constructor
   · funext t
     cases t with
@@ -94,7 +96,7 @@ theorem mode_irrelevant_succ (lits : List Lit) (h : depth1Only lits = true) (n :
       cases hl : lits[i]? with
       | none => rfl
       | some l => simp only [makeCells_depth1 s l.frees (lit_depth1_of_mem h hl)]
-    | _ => simp only [eval, h1, h2, h4, h5, h6, h7, h8]
+    | _ => simp only [eval, h1, h2, h3, h4, h5, h6, h7, h8, h9]
   · funext ts
     cases ts <;> simp only [evalList, h1, h2]
   · funext ts
@@ -113,6 +115,8 @@ theorem mode_irrelevant_succ (lits : List Lit) (h : depth1Only lits = true) (n :
     | cons v rest => cases v <;> simp only [tryLoop, h4, h7]
   · funext f args w
     simp only [threadCall, h4]
+  · funext k rs cnt its body
+    simp only [loopRun, h3, h9]
 
 end Risor.C02
 
@@ -123,5 +127,64 @@ namespace Risor.C02
 theorem mode_irrelevant (lits : List Lit) (h : depth1Only lits = true) : ∀ n, ModeIrrelevant lits n
   | 0 => mode_irrelevant_zero lits
   | n + 1 => mode_irrelevant_succ lits h n (mode_irrelevant lits h n)
+
+end Risor.C02
+
+namespace Risor.C02
+
+/-! ## the slot allocator of block tables -/
+
+/-- one operation either claims nothing and leaves `count`, or claims exactly `count` and
+    moves it up by one -/
+theorem FScope.applyOp_cases (s : FScope) (op : BOp) :
+    ((s.applyOp op).2 = [] ∧ (s.applyOp op).1.count = s.count) ∨
+    ((s.applyOp op).2 = [s.count] ∧ (s.applyOp op).1.count = s.count + 1) := by
+  cases op with
+  | openB => exact .inl ⟨rfl, rfl⟩
+  | closeB => exact .inl ⟨rfl, rfl⟩
+  | decl x =>
+    unfold FScope.applyOp FScope.declare
+    cases hb : s.blocks with
+    | nil =>
+      simp only
+      cases hl : lookupTab s.bodyTab x with
+      | some i => exact .inl ⟨rfl, rfl⟩
+      | none => exact .inr ⟨rfl, rfl⟩
+    | cons b bs =>
+      simp only
+      cases hl : lookupTab b x with
+      | some i => exact .inl ⟨rfl, rfl⟩
+      | none => exact .inr ⟨rfl, rfl⟩
+
+/-- the claimed slots of any sequence are strictly increasing and lie in
+    `[count before, count after)` -/
+theorem FScope.claims_sorted : ∀ (ops : List BOp) (s : FScope),
+    (s.claims ops).Pairwise (· < ·) ∧ s.count ≤ (s.runOps ops).count ∧
+      ∀ i ∈ s.claims ops, s.count ≤ i ∧ i < (s.runOps ops).count := by
+  intro ops
+  induction ops with
+  | nil =>
+    intro s
+    refine ⟨List.Pairwise.nil, Nat.le_refl _, ?_⟩
+    intro i hi
+    simp [FScope.claims] at hi
+  | cons op ops ih =>
+    intro s
+    obtain ⟨hp, hc, hall⟩ := ih (s.applyOp op).1
+    rcases FScope.applyOp_cases s op with ⟨h2, h1⟩ | ⟨h2, h1⟩
+    · simp only [FScope.claims, FScope.runOps, h2, List.nil_append]
+      rw [h1] at hc hall
+      exact ⟨hp, hc, hall⟩
+    · simp only [FScope.claims, FScope.runOps, h2, List.singleton_append]
+      rw [h1] at hc hall
+      refine ⟨List.Pairwise.cons ?_ hp, by omega, ?_⟩
+      · intro j hj
+        have := (hall j hj).1
+        omega
+      · intro i hi
+        rcases List.mem_cons.1 hi with rfl | hi
+        · exact ⟨Nat.le_refl _, by omega⟩
+        · have := hall i hi
+          exact ⟨by omega, this.2⟩
 
 end Risor.C02
